@@ -98,6 +98,7 @@ class AtomGrid(Grid):
         # check stage, if center is None, set to (0., 0., 0.)
         center = np.zeros(3, dtype=float) if center is None else np.asarray(center, dtype=float)
         self._input_type_check(rgrid, center)
+        method = method.lower()
         # assign & check stage
         self._center = center
         self._rgrid = rgrid
@@ -214,6 +215,7 @@ class AtomGrid(Grid):
                 )
         center = np.zeros(3, dtype=float) if center is None else np.asarray(center, dtype=float)
         cls._input_type_check(rgrid, center)
+        method = method.lower()
         # load radial points and
         data = np.load(files("grid.data.prune_grid").joinpath(f"prune_grid_{preset}.npz"))
         # load predefined_radial sectors and num_of_points in each sectors
@@ -295,6 +297,7 @@ class AtomGrid(Grid):
             Generated AtomGrid instance for this special init method.
 
         """
+        method = method.lower()
         if s_sectors is not None:
             warnings.warn(
                 "s_sectors are used for making the atomic grid, d_sectors is ignored!",
